@@ -154,6 +154,48 @@ func runC18(c *fw.Ctx) {
 	pins := [][]any{{-3, -1, -2}, {-2.5, -7, -0.5}, {-4}, {-1.25}, {math.MaxInt, 1}, {math.MaxInt, 2.5, math.MaxInt}, {math.MinInt, -1.0, math.MinInt}, {1.0, 4, 5.0}, {0, 5, 5, 10},
 		{7}, {7.5}, {0}, {0.0}, {math.MaxInt}, {math.MinInt}, {3, 3.0}, {1e300, 1e300}, {-1, 1}, {0.1, 0.2, 0.3}, {2, 0.5}, {5, -5.0, 5}}
 	c.Cases("pinned", len(pins), true, func(i int, r *rng.R) { c18Numeric(c, pins[i], 1) })
+	// lists without any element, reached in different ways (fresh, emptied, empty results of deriving operations)
+	c.Cases("empty", 12, true, func(i int, r *rng.R) {
+		names := []string{"NewList()", "NewListFrom([]int{})", "NewListFrom([]float64(nil))", "NewListOf(1.5, 0)", "NewList(1, 2.5).Clear()", "NewList(3).Pop() list", "NewList(1, 2).Delete(0, 1)",
+			"NewList(1, 2).Filter(none)", "NewList().Concat(NewList())", "NewList(1.5).SubList(1, 1)", "ParseList(\"[]\")", "NewList(2, 3).Clone().Clear()"}
+		in := func() string { return "empty list made by " + names[i] }
+		guard(c, in, func() {
+			var l at.List
+			switch i {
+			case 0:
+				l = at.NewList()
+			case 1:
+				l = at.NewListFrom([]int{})
+			case 2:
+				l = at.NewListFrom([]float64(nil))
+			case 3:
+				l = at.NewListOf(1.5, 0)
+			case 4:
+				l = at.NewList(1, 2.5).Clear()
+			case 5:
+				l = at.NewList(3)
+				l.Pop()
+			case 6:
+				l = at.NewList(1, 2).Delete(0, 1)
+			case 7:
+				l = at.NewList(1, 2).Filter(func(any) bool { return false })
+			case 8:
+				l = at.NewList().Concat(at.NewList())
+			case 9:
+				l = at.NewList(1.5, 2.5).SubList(1, 1)
+			case 10:
+				l, _ = at.ParseList("[]")
+			default:
+				l = at.NewList(2, 3).Clone().Clear()
+			}
+			c.Distinct(in())
+			if l == nil || l.Count() != 0 {
+				c.Count("empty_route_not_empty") // the route is not what this workload is about (judged by C05 / C09)
+				return
+			}
+			c18Empty(c, l, in())
+		})
+	})
 	c.Cases("numeric", c.N(3000, 2000000), false, func(i int, r *rng.R) {
 		vals, class := genNumeric(r)
 		c18Numeric(c, vals, class)
@@ -239,6 +281,30 @@ func c18IntFamily(c *fw.Ctx, vals []any) {
 	})
 }
 
+// c18Empty: "with no qualifying element the sums are 0, the products 1 and the minima and maxima 0" on a list without
+// any element (Avg of nothing is not specified and only called).
+func c18Empty(c *fw.Ctx, l at.List, desc string) {
+	c.Count("empty_lists")
+	var sum, prod, mn, mx float64
+	var isum, iprod, imin, imax int
+	if p, msg := drive.Protect(func() {
+		sum, prod, mn, mx = l.Sum(), l.Prod(), l.Min(), l.Max()
+		isum, iprod, imin, imax = l.IntSum(), l.IntProd(), l.IntMin(), l.IntMax()
+	}); p {
+		c.Violate("aggregate-panics", desc, "0 / 1 / 0 / 0 on a list without elements", msg)
+		return
+	}
+	drive.Protect(func() { l.Avg() })
+	// the sign of a zero is not part of the statement
+	if sum != 0 || prod != 1 || mn != 0 || mx != 0 || isum != 0 || iprod != 1 || imin != 0 || imax != 0 {
+		c.Violate("aggregate-wrong:empty", desc, "Sum 0 Prod 1 Min 0 Max 0 IntSum 0 IntProd 1 IntMin 0 IntMax 0",
+			fmt.Sprintf("Sum %v Prod %v Min %v Max %v IntSum %v IntProd %v IntMin %v IntMax %v", sum, prod, mn, mx, isum, iprod, imin, imax))
+	}
+	if l.Count() != 0 {
+		c.Violate("aggregate-modifies-list", desc, "still empty", stringCanon(l))
+	}
+}
+
 func c18Numeric(c *fw.Ctx, vals []any, class int) {
 	c18NumericHist(c, nil, vals, class, 0, spec.Hash(showNums(vals)), "")
 }
@@ -258,6 +324,10 @@ func c18NumericHist(c *fw.Ctx, l at.List, vals []any, class int, depth int, rr u
 		}
 		before := top(l)
 		n := len(vals)
+		if n == 0 {
+			c18Empty(c, l, in())
+			return
+		}
 		c.Count("numeric_lists")
 		c.Count(fmt.Sprintf("class/%d", class))
 		c.Distinct(in())
